@@ -35,30 +35,42 @@ HANDLERS = ['ignore', 'map', 'router', 'none']
 TAILS = ['nothing', 'to_list', 'scan', 'count']
 
 
+SHARED = {'on': False, 'exc': None}
+
+
+def boom(tag):
+    """a fresh exception per failing item, or (negative caching, a re-raised stored error) the same instance every time"""
+    if SHARED['on']:
+        if SHARED['exc'] is None:
+            SHARED['exc'] = Boom('shared')
+        return SHARED['exc']
+    return Boom(tag)
+
+
 def failing_op(op):
     # items are (key, value, raises, id)
     if op == 'map':
         def f(i):
             if i[2]:
-                raise Boom(i[3])
+                raise boom(i[3])
             return i[1] + 100
         return rs.ops.map(f)
     if op == 'starmap':
         def g(k, v, raises, n):
             if raises:
-                raise Boom(n)
+                raise boom(n)
             return v - 100
         return rs.ops.starmap(g)
     if op == 'filter':
         def p(i):
             if i[2]:
-                raise Boom(i[3])
+                raise boom(i[3])
             return i[1] % 2 == 0
         return rs.ops.filter(p)
 
     def acc(a, i):
         if i[2]:
-            raise Boom(i[3])
+            raise boom(i[3])
         return a + i[1]
     return rs.ops.scan(acc, 0)
 
@@ -121,6 +133,8 @@ def tail_ops(tail):
 def run(case):
     op, handler, tail, driver = case['op'], case['handler'], case['tail'], case['driver']
     MAPVAL[0] = case.get('mapval', 'tagged')
+    SHARED['on'], SHARED['exc'] = bool(case.get('shared_exc')), None
+    shared = SHARED['on']
     outer = bool(case.get('outer')) and case['driver'] == 'grouped' and case['handler'] != 'none'
     items = [(k, v, bool(f), n) for n, (k, v, f) in enumerate(case['items'])]
     if driver != 'grouped':
@@ -185,7 +199,7 @@ def run(case):
             exp = []
             for it, o in zip(per[k], ref_op_outputs(op, per[k])):
                 if o is None:
-                    exp.append(('e', it[3]))
+                    exp.append(('e', 'shared' if shared else it[3]))
                 else:
                     exp += [('n', x) for x in o]
             if got_between.get(mk, []) != exp:
@@ -197,7 +211,7 @@ def run(case):
         xs = []       # what the handler lets through for key k, per source item
         for it, o in zip(its, ref_op_outputs(op, its)):
             if o is None:
-                xs.append([mapper(Boom(it[3]))] if handler == 'map' and not outer else [])
+                xs.append([mapper(Boom('shared' if shared else it[3]))] if handler == 'map' and not outer else [])
             else:
                 xs.append(o)
         return xs
@@ -230,7 +244,7 @@ def run(case):
             raise Violation('exception escaped subscribe', result=r.brief(), **ctx)
         if r.error is None:
             raise Violation('an unhandled mux error did not surface as on_error', result=r.brief(), **ctx)
-        if not isinstance(r.error, Boom) or r.error.tag != failing[0][3]:
+        if not isinstance(r.error, Boom) or r.error.tag != ('shared' if shared else failing[0][3]):
             raise Violation('on_error carries %r, expected Boom(%r) of the first failing item' % (r.error, failing[0][3]), **ctx)
         if r.completed:
             raise Violation('stream both failed and completed', **ctx)
@@ -244,7 +258,7 @@ def run(case):
         raise Violation('main output differs from the output computed without the failing items', expected=exp_main, got=r.items, **ctx)
     if handler == 'router' and not outer:
         tags = [getattr(e, 'tag', None) for e in dead.items]
-        if any(not isinstance(e, Boom) for e in dead.items) or tags != [it[3] for it in failing]:
+        if any(not isinstance(e, Boom) for e in dead.items) or tags != [('shared' if shared else it[3]) for it in failing]:
             raise Violation('dead-letter observable did not receive exactly the exceptions in source order',
                             expected=[it[3] for it in failing], got=[repr(e) for e in dead.items], **ctx)
         if dead.error is not None:
@@ -265,7 +279,8 @@ def case_gen(draw):
     items = [[draw(st.integers(0, 2)), draw(st.integers(-5, 5)), draw(st.integers(0, 2).map(lambda x: int(x == 0)))] for _ in range(n)]
     return {'op': op, 'handler': draw(st.sampled_from(HANDLERS)), 'tail': tail, 'driver': driver, 'items': items,
             'outer': driver == 'grouped' and draw(st.integers(0, 3)) == 0,
-            'mapval': draw(st.sampled_from(['tagged', 'tagged', 'none', 'zero', 'false', 'empty']))}
+            'mapval': draw(st.sampled_from(['tagged', 'tagged', 'none', 'zero', 'false', 'empty'])),
+            'shared_exc': draw(st.integers(0, 3)) == 0}
 
 
 def enum(tier):
@@ -292,6 +307,7 @@ def malformed_case(draw):
 def run_malformed(case):
     """starmap over items that cannot be star-applied (None, a scalar, a tuple of the wrong arity): calling the user
     function on them raises, which is an item-level error like any other: one mux error in place, the rest continues."""
+    SHARED['on'] = False
     items = [tuple(i) if isinstance(i, list) else i for i in case['items']]
     handler = case['handler']
     good = lambda i: isinstance(i, tuple) and len(i) == 2
@@ -341,6 +357,7 @@ def second_run_case(draw):
 def run_second(case):
     """The same router and the same pipeline serve a second stream after the first one ended: errors are routed again,
     the dead-letter observable receives them and completes again."""
+    SHARED['on'] = False
     items = [(0, v, bool(f), n) for n, (v, f) in enumerate(case['items'])]
     errors, route = rs.error.create_error_router()
     inner = [failing_op(case['op']), route()]
